@@ -61,6 +61,7 @@ class Node:
     def __init__(self, name, kind, mode, mtime, nsec=0, gen=None, kids=None):
         self.name, self.kind, self.mode, self.mtime, self.nsec, self.gen, self.kids = name, kind, mode, mtime, nsec, gen, kids
         self.atime = 0
+        self.link = None       # symbolic link to this sibling name: the node carries what stat(2) sees through it
 
 
 def gen_tree(rng, name, depth, budget, want_dir=None, big_ok=True):
@@ -86,7 +87,9 @@ def gen_tree(rng, name, depth, budget, want_dir=None, big_ok=True):
 def materialize(base, node, future):
     """create on disk below directory `base` (bytes); returns nothing; metadata set afterwards (post-order)"""
     p = base + b"/" + node.name
-    if node.kind == "d":
+    if node.link:
+        os.symlink(node.link, p)
+    elif node.kind == "d":
         os.mkdir(p)
         for k in node.kids:
             materialize(p, k, future)
@@ -95,8 +98,17 @@ def materialize(base, node, future):
             f.write(pcp.lcg_bytes(*node.gen))
 
 
+def set_atime(node, future):
+    node.atime = future
+    for k in node.kids or []:
+        set_atime(k, future)
+
+
 def set_meta(base, node, future):
     p = base + b"/" + node.name
+    if node.link:
+        set_atime(node, future)       # mode and times are those of the target, set there
+        return
     if node.kind == "d":
         for k in node.kids:
             set_meta(p, k, future)
@@ -369,6 +381,8 @@ def run_cases(ctx, exe, cases, cnt, var, cov, dist, distinct, nested=False):
             if toobig and not any(r.startswith("E:") for r in replies):
                 ctx.offender("isolation:unreported", "a file that could not be written (larger than the receiver's "
                              "file size limit) was not reported", cj)
+        if bads and os.environ.get("VERIF_C11_DEBUG"):
+            ctx.log("DEBUG spec line:", slines[i][:3000], "answer", sp[:300])
         if bads:
             dist["spec_failures"] += 1
             cj["discrepancies"] = [(p.decode("latin-1"), k) for p, k in bads[:12]]
@@ -503,9 +517,38 @@ class Probe:
 
 def clone(node):
     n = Node(node.name, node.kind, node.mode, node.mtime, node.nsec, node.gen, None)
+    n.link = node.link
     if node.kind == "d":
         n.kids = [clone(k) for k in node.kids]
     return n
+
+
+def add_links(rng, c):
+    """-r sources with symbolic links: pcp_client.c uses stat(2), so a link to a file is copied as that file and a link to
+    a directory as that directory (contents and all), under the link's name.  The link node is a copy of its target."""
+    dirs = [n for _, t in c["srcs"] for _, n in walk(t, []) if n.kind == "d" and n.kids and not n.link]
+    n_links = 0
+    # all links of a case go into ONE directory and point to its entries (a link added inside a target later would
+    # also show through the link)
+    for d in rng.sample(dirs, min(len(dirs), 1)) * rng.choice([1, 1, 2]):
+        cand = [k for k in d.kids if not k.link and not has_links(k)]
+        if not cand:
+            continue
+        target = rng.choice(cand)
+        ln = clone(target)
+        ln.name = rng.choice([b"ln", b"link to", b"l.nk", b"zz"]) + b"%d" % n_links
+        if any(k.name == ln.name for k in d.kids):
+            continue
+        ln.link = target.name
+        d.kids.append(ln)
+        n_links += 1
+    c["links"] = n_links
+    c["conflict"] = c["overwrite"] = None
+    return c
+
+
+def has_links(node):
+    return bool(node.link) or any(has_links(k) for k in node.kids or [])
 
 
 def shrink_case(ctx, exe, c, sig, cnt, var):
@@ -582,11 +625,12 @@ def signature(c, bad, snap, expected):
 
 
 def describe(node):
+    lk = {"link": node.link.decode("latin-1")} if node.link else {}
     if node.kind == "f":
-        return {"name": node.name.decode("latin-1"), "mode": "%o" % node.mode, "mtime": node.mtime, "nsec": node.nsec,
-                "size": node.gen[1], "seed": node.gen[0]}
-    return {"name": node.name.decode("latin-1"), "mode": "%o" % node.mode, "mtime": node.mtime,
-            "kids": [describe(k) for k in node.kids]}
+        return dict({"name": node.name.decode("latin-1"), "mode": "%o" % node.mode, "mtime": node.mtime, "nsec": node.nsec,
+                     "size": node.gen[1], "seed": node.gen[0]}, **lk)
+    return dict({"name": node.name.decode("latin-1"), "mode": "%o" % node.mode, "mtime": node.mtime,
+                 "kids": [describe(k) for k in node.kids]}, **lk)
 
 
 def case_json(c):
@@ -599,8 +643,11 @@ def case_json(c):
 def from_json(j, k):
     def mk(d):
         if "kids" in d:
-            return Node(d["name"].encode("latin-1"), "d", int(d["mode"], 8), d["mtime"], kids=[mk(x) for x in d["kids"]])
-        return Node(d["name"].encode("latin-1"), "f", int(d["mode"], 8), d["mtime"], nsec=d.get("nsec", 0), gen=(d["seed"], d["size"]))
+            n = Node(d["name"].encode("latin-1"), "d", int(d["mode"], 8), d["mtime"], kids=[mk(x) for x in d["kids"]])
+        else:
+            n = Node(d["name"].encode("latin-1"), "f", int(d["mode"], 8), d["mtime"], nsec=d.get("nsec", 0), gen=(d["seed"], d["size"]))
+        n.link = d["link"].encode("latin-1") if d.get("link") else None
+        return n
     return dict(k=k, srcs=[(s["userdir"].encode("latin-1"), mk(s["tree"])) for s in j["sources"]], p=j["preserve"],
                 reverse=j["reverse"], host=j["host"].encode(), um=int(j["umask"], 8), dest=j["dest"].encode("latin-1"),
                 conflict=(j["conflict"][0].encode("latin-1"), j["conflict"][1]) if j.get("conflict") else None,
@@ -1096,6 +1143,58 @@ def run_multi(ctx, exe, cases, cnt, var, cov, dist):
     shutil.rmtree(jbase, ignore_errors=True)
 
 
+def run_refused_sources(ctx, exe, cov, dist):
+    """-r sources pcp_client.c refuses: pcp_expand_dirs/_rexpand_dir use stat(2) and end the client (errx) on anything that
+    is neither a regular file nor a directory and on a link that points nowhere -- BEFORE the first byte is sent.
+    Stated, not modelled (the model's trees hold files and directories): the client exits non-zero naming the entry,
+    sends nothing, the receiver gets the end of input after its greeting and the destination is untouched."""
+    for kind in ("fifo", "dangling-link", "socket", "link-to-fifo"):
+        sdir = os.path.join(ctx.scratch, "refused_src")
+        j = os.path.join(ctx.scratch, "refused_jail")
+        for d in (sdir, j):
+            shutil.rmtree(d, ignore_errors=True)
+        os.makedirs(os.path.join(sdir, "top", "sub"))
+        with open(os.path.join(sdir, "top", "a_file"), "w") as f:
+            f.write("regular\n")
+        odd = os.path.join(sdir, "top", "sub", "odd")
+        if kind == "fifo":
+            os.mkfifo(odd)
+        elif kind == "dangling-link":
+            os.symlink("nowhere", odd)
+        elif kind == "socket":
+            import socket
+            sk = socket.socket(socket.AF_UNIX)
+            sk.bind(odd)
+            sk.close()
+        else:
+            os.mkfifo(os.path.join(sdir, "top", "sub", "pipe"))
+            os.symlink("pipe", odd)
+        ents = [Ent(b"", "d", 0o755, OLD), Ent(b"o", "d", 0o755, OLD + 1), Ent(b"o/w", "d", 0o755, OLD + 3),
+                Ent(b"o/w/dest", "d", 0o755, OLD + 7), Ent(b"o/w/dest/keep", "f", 0o600, OLD + 8, b"keep")]
+        pcp.build_jail(j, ents)
+        op = "rt %s /o/w %s 0 1 22 0 %s 0 %s %s" % (j, hx(b"dest"), sdir, hx(b"h"), hx(b"top"))
+        (ans, crash), = run_batch([exe], [[op]], env=dict(os.environ, ASAN_OPTIONS="detect_leaks=0"))
+        f = pcp.fields(ans[0]) if ans else {}
+        cj = dict(refused_source=kind)
+        cov["evaluations"] += 1
+        dist["refused_source_kinds"] = dist.get("refused_source_kinds", 0) + 1
+        if crash is not None or "crc" not in f:
+            ctx.disagreement("pcp harness", "refused source: harness failed: %s" % str(ans)[:200], cj)
+            continue
+        errtxt = pcp.unhx(f["err"])
+        snap = pcp.snapshot(j)
+        changed = pcp.changed_paths({e.path: e for e in ents}, snap, int(time.time()))
+        if f["san"] != "0" or f["csig"] != "0" or f["ssig"] != "0":
+            ctx.offender("crash", "a source that is %s: client/server crash: %s" % (kind, errtxt[-200:]), cj)
+        elif f["crc"] == "0" or f["c2slen"] != "0" or b"odd" not in errtxt and b"pipe" not in errtxt or changed:
+            ctx.offender("refused-source:not-refused-cleanly",
+                         "a -r source tree holding a %s: expected the client to end before sending anything, naming the "
+                         "entry, destination untouched; got client rc=%s, %s bytes sent, stderr %r, changed %r" % (
+                             kind, f["crc"], f["c2slen"], errtxt[-150:], changed[:4]), cj)
+        for d in (sdir, j):
+            shutil.rmtree(d, ignore_errors=True)
+
+
 def probe_sender(ctx, exe):
     """which sender is in /repo?  ssec = the T record carries microseconds (repair of F11-MTIME-SUBSEC);
     sfix = a source the user names like the sentinel is sent as a file (repair of F11-SENTINEL-NAME);
@@ -1175,8 +1274,14 @@ def run(ctx):
                 mcases.append(multi_from_json(rc, 0))
         cases += corpus(len(cases))
         cases += [gen_case(rng, len(cases) + i, ctx.quick()) for i in range(n)]
+        import random
+        rng2 = random.Random(ctx.seed * 104729 + 5)         # own stream: the cases above stay what they were
+        lcases = [add_links(rng2, gen_case(rng2, len(cases) + i, ctx.quick())) for i in range(40 if ctx.quick() else 600)]
+        cases += lcases
+        dist["cases_with_symlinks_in_sources"] = sum(1 for c in lcases if c["links"])
         for i in range(0, len(cases), 500):
             run_cases(ctx, exe, cases[i:i + 500], cnt, var, cov, dist, distinct)
+        run_refused_sources(ctx, exe, cov, dist)
         mcases += multi_corpus(len(mcases))
         mcases += [gen_multi(rng, len(mcases) + i) for i in range(40 if ctx.quick() else 800)]
         for i in range(0, len(mcases), 200):
@@ -1200,6 +1305,8 @@ def run(ctx):
         LEVEL, cov,
         assumptions=["sources do not change while they are copied; source paths shorter than MAXPATHLEN, records shorter "
                      "than BUFSIZ (names <= NAME_MAX)", "source modification times are non-negative",
+                     "sources hold regular files, directories and symbolic links to those (stat(2) is followed: generated); any other "
+                     "entry ends the client before it sends anything (pinned cases: fifo, socket, dangling link, link to a fifo)",
                      "client and server run as root: no permission failures; I/O errors only as injected write faults "
                      "(receiver under RLIMIT_FSIZE)",
                      "each target is served by the same client code on its own connection; the receivers of several targets "
